@@ -237,20 +237,27 @@ def standard_run(ctx, spec):
         nfail = nmis = 0
         for c in cases:
             m = outs.get(c["id"])
+            grp = sj.get("cases", {}).get(c["group"], [])
+            flat = dict(grp[c["index"]] if c["index"] < len(grp) else {}, group=c["group"])
+            c["flat"] = flat
             why = judge(c, m, byid, outs)
             if why is None:
                 continue
-            flat = dict(sj.get("cases", {}).get(c["group"], [{}] * (c["index"] + 1))[c["index"]], group=c["group"])
+            k = kind(c)
+            if isinstance(why, tuple):
+                k, why = why
             kf = vf.match_known(known, flat)
             if kf:
                 vf.known_finding(ctx, kf["what"])
+                state["known_hits"] = state.get("known_hits", 0) + 1
                 continue
-            if kind(c) == "property":
+            if k == "property":
                 nfail += 1
             else:
                 nmis += 1
             state["found"] = True
-            vf.violation(ctx, {"group": c["group"], "case": flat, "model": m, "observed": c["observed"], "why": why,
+            short = {kk: (vv if len(str(vv)) < 400 else str(vv)[:400] + "...") for kk, vv in flat.items()}
+            vf.violation(ctx, {"group": c["group"], "case": flat, "model": m, "observed": c["observed"], "why": why, "kind": k,
                                "seed": seed, "tier": tier,
                                "replay_cmd": "echo '%s %s %s' | build/mb_%s/%s_runner   # model; the implementation's answer is in 'observed'" % (c["id"], c["op"], c["args"], pid.lower(), pid.lower())},
                          True, "%s %s: %s" % (c["group"], c["op"], why), tag + "-%s%d" % (c["group"], c["index"]))
